@@ -296,6 +296,28 @@ CLAIMED["C14"] = dict(
               "extracted-model correspondence + oracle",
 )
 
+CLAIMED["C11"] = dict(
+    text="Video RTP path sender -> network -> receiver, ten Coq theorems over Model/RtpSend.v and Model/RtpRecv.v "
+         "(composed with the C07, C10 and C16 models): for every frame/NACK history from any sequence origin the "
+         "retransmission history holds exactly the last 128 sends and _retransmit resends the right packet, as RTX "
+         "or verbatim, with RTX unwrapping to the original; the NackGenerator's missing set is exactly the "
+         "skipped-and-not-arrived numbers of the 128-window, so every NACK lists at most 128 strictly increasing "
+         "numbers and one is sent whenever the set grows; for an arbitrary arrival list drawn from the sent packets "
+         "and their RTX wrappings every frame handed to the decoder is a run of consecutive packets of ONE sent "
+         "frame (never a splice); with fewer than 65536 packets it ends at that frame's end and is the whole frame "
+         "unless it is the first release after start or after a PLI; the sender model's output meets the "
+         "hypotheses.",
+    design_ref="5 / C11",
+    note="PARTIAL: frame order under the C10 lateness hypothesis, byte identity with the sender's bitstream (C16 "
+         "composition), timestamp mapping and recovery liveness are checked by the closed-loop oracle only. A "
+         "retransmission arriving 100 or more positions late resets the jitter buffer and is a precondition on the "
+         "input. REMB, statistics, wire codecs and scheduling are not modelled. Tie: differential run against a real "
+         "NackGenerator, a real RTCRtpSender (_run_rtp fed scripted frames, NACKs via _handle_rtcp_packet), a real "
+         "video RTCRtpReceiver and a closed loop of both through a scripted faulty network with real packetisers.",
+    technique="Coq proof (induction and invariants over all histories) + extracted-OCaml correspondence + "
+              "closed-loop implementation oracle",
+)
+
 CLAIMED["C17"] = dict(
     text="Coq theorems: the serial comparisons uint16/uint32 gt/gte/add - REGENERATED from utils.py on every run - "
          "are irreflexive, antisymmetric, total away from the antipode, consistent with modular addition and "
